@@ -401,6 +401,41 @@ func (c *Ctx) c02Sweep(snap *load.FuncInfo) {
 			r.Break("C02.N6: no return in robust.(*Message).Timestamp")
 		}
 	}
+	// ---------- N4c: what Restore publishes reaches the handlers: api.ReplaceState stores each of its three parameters in the
+	// field the accessors read
+	if rs2 := c.P.Func("api.(*HTTP).ReplaceState"); rs2 != nil && rs2.Body() != nil {
+		ri := rs2.Info()
+		var params []types.Object
+		for _, fld := range rs2.FuncType().Params.List {
+			for _, nm := range fld.Names {
+				params = append(params, ri.Defs[nm])
+			}
+		}
+		stored := map[types.Object]bool{}
+		ast.Inspect(rs2.Body(), func(n ast.Node) bool {
+			if as, ok := n.(*ast.AssignStmt); ok && len(as.Lhs) == len(as.Rhs) {
+				for k, l := range as.Lhs {
+					if se, ok := ast.Unparen(l).(*ast.SelectorExpr); ok && astx.FieldSel(ri, se) != nil {
+						if id, ok := ast.Unparen(as.Rhs[k]).(*ast.Ident); ok {
+							stored[astx.Obj(ri, id)] = true
+						}
+					}
+				}
+			}
+			return true
+		})
+		for _, p := range params {
+			if p == nil {
+				continue
+			}
+			tn := "value"
+			if nt := astx.NamedOf(p.Type()); nt != nil {
+				tn = nt.Obj().Name()
+			}
+			r.Check(stored[p], "C02.N4", rs2.Name(), "the replaced "+tn+" is published to the handlers", c.P.Pos(rs2.Node().Pos()), "h.<field> = <parameter>",
+				"ReplaceState drops one of the objects Restore created: the HTTP handlers keep reading the closed store / the old server / the old output stream after a snapshot was installed")
+		}
+	}
 	// ---------- N5e: Restore hands the stream to the decoder its first byte selects; the record loop ends at, and only at, EOF
 	if rs := c.MustFunc("main.(*FSM).Restore"); rs != nil && rs.Body() != nil {
 		ri := rs.Info()
